@@ -18,8 +18,12 @@
 // Real code from /repo/hextb.cpp (compiled with -Dmain=hextb_main -DHEX_VERIF) and hexsim.cpp.
 int hextb_main(int argc, const char **argv);
 int hexsim_main(int argc, const char **argv);
+// TBSIM_NO_PLANT: the tree's hextb.cpp no longer has load()/run() with these signatures (bin/vbuild.py falls back to this when the
+// link fails): planted runs then go through main() with a power-on seed derived from the plan (seeded C06-15).
+#ifndef TBSIM_NO_PLANT
 void load(const char *filename, const std::unique_ptr<Vhex_pkg> &top);
 int run(const std::unique_ptr<VerilatedContext> &contextp, const std::unique_ptr<Vhex_pkg> &top, bool trace, size_t maxCycles);
+#endif
 extern bool (*hexVerifTick)(VerilatedContext *, Vhex_pkg *);
 extern hex::HexSimIO io;
 
@@ -439,6 +443,9 @@ public:
 
   // load() and run() called directly, with the power-on state written in between.
   ToolOutcome runTbPlanted(const PlanView &v, bool allZero, uint64_t watchdog, std::string *inv, bool trace = false) {
+#ifdef TBSIM_NO_PLANT
+    return runTbMain(v, allZero ? 4711 : 1 + sim::mix64(v.memSeed, v.pc) % 0x7FFFFFF0ull, watchdog, inv, trace);
+#else
     stageFiles(v);
     resetTbGlobals();
     ss.attach(v.input);
@@ -495,6 +502,7 @@ public:
     g_tick.snapshot.clear(); g_tick.snapshot.shrink_to_fit();
     ss.detach();
     return t;
+#endif
   }
 
   ToolOutcome runHexsim(const PlanView &v, uint64_t watchdog) {
